@@ -45,6 +45,7 @@ def units(ctx):
             for b in ctx["syms_b"]:
                 yield ("pre", "b", a, b)
     yield from hist.hist_units()
+    yield ("long", "a")
     for a in ctx["syms"][-6:] + ctx["syms"][:2]:
         yield ("aliased", a)
 
@@ -53,6 +54,32 @@ def gen_cases(unit, ctx):
     if unit[0] == "hist":
         for h in hist.hist_of_unit(unit):
             yield {"seed": unit[1], "build": unit[2], "hist": h}
+        return
+    if unit[0] == "long":
+        # scale: words of hundreds of messages built from a long well-formed piece, with ill-formed insertions
+        for n in (16, 48, 120):
+            for inject in (0, 5, 11):
+                items = []
+                for k, (o, l, p, c, v) in enumerate(lib.long_desc(n, 40, (0, 1, 9), 5, lens=(3, 9, 5, 14))):
+                    items.append((o, 1, f"on:{c}:{p}"))
+                    items.append((o + l, 0, f"off:{c}:{p}"))
+                    if inject and k % inject == 2:
+                        items.append((o + 1, 1, f"on:{c}:{p}"))          # re-trigger while sounding
+                    if inject and k % inject == 3:
+                        items.append((o + l + 1, 0, f"off:{c}:{p}"))      # orphan release
+                    if inject and k % inject == 4:
+                        items.append((o + 2, 2, "ts34" if k % 2 else "ksG"))  # restated signatures
+                if inject:
+                    items.append((5 * n + 3, 1, "on:1:99"))                # never closed
+                items.sort()
+                word, t = [], 0
+                for (tick, _, sym) in items:
+                    if tick > t:
+                        word.append(f"w{tick - t}")
+                        t = tick
+                    word.append(sym)
+                word.append("w17")
+                yield {"word": word}
         return
     if unit[0] == "aliased":
         # words in which every occurrence of a symbol is THE SAME Message object (what concatenating a motif twice gives)
